@@ -284,14 +284,14 @@ def run(ck):
                'object; scenarios with a 127 outcome for the recorded finding. non-trivial = more than one run, distinct by '
                'scenario and schedule'
                % ((36, 12, '~200', 'all interleavings of a 2-run scenario') if quick else
-                  (150, 50, '~7500', 'all interleavings for 2 runs and 2500 sampled for 3 runs')))
+                  (110, 40, '~6000', 'all interleavings of 2-run scenarios and of a 3-run scenario (3^7 release schedules)')))
     for name, data in load_corpus(ck):
         ck.count('corpus')
         run_input(ck, data['input'], 'corpus:' + name)
     # (1) sequential schedulers
-    for i in range(36 if quick else 150):
+    for i in range(36 if quick else 110):
         scn, scripts = gen_scenario(rng, 2, 5, False, with_127=(i % 9 == 8))
-        sequential_scenario(ck, scn, scripts, 12 if quick else 50, 'seq')
+        sequential_scenario(ck, scn, scripts, 12 if quick else 40, 'seq')
     # (2) parallel, exhaustive for small scenarios
     small = [(2, 5)] if quick else [(2, 5), (2, 8), (3, 8)]
     for n, cpu in small:
@@ -307,7 +307,7 @@ def run(ck):
         parallel_scenario(ck, {'runs': runs}, scripts, cpu, scheds, 'par-exh')
     ck.exhaustive = True
     # (3) parallel, sampled
-    n_scen, per = (18, 10) if quick else (200, 25)
+    n_scen, per = (18, 10) if quick else (150, 25)
     for i in range(n_scen):
         scn, scripts = gen_scenario(rng, 2, 12, True, with_127=(i % 9 == 8))
         cpu = rng.choice([5, 8, 8, 16])
